@@ -103,6 +103,15 @@ pub fn io_error_into_bincode(e: io::Error) -> (r: bincode::Error) { unimplemente
 // From<ChannelError> for io::Error (messages only; not under contract)
 #[verifier::external_body]
 pub fn io_error_from(e: ChannelError) -> (r: io::Error) { unimplemented!() }
+// the same two conversions through the traits, for code that names them separately
+impl From<ChannelError> for io::Error {
+    #[verifier::external_body]
+    fn from(e: ChannelError) -> (r: io::Error) { unimplemented!() }
+}
+impl From<io::Error> for Box<bincode::ErrorKind> {
+    #[verifier::external_body]
+    fn from(e: io::Error) -> (r: Box<bincode::ErrorKind>) { unimplemented!() }
+}
 impl PartialEq for ChannelError {
     #[verifier::external_body]
     fn eq(&self, other: &ChannelError) -> (r: bool) ensures r == (*self == *other) { unimplemented!() }
